@@ -298,6 +298,7 @@ def index_shape(shape, items):
         amap[old] = old + n_right - len(new_right)
     # left part
     new_left = []
+    left_kept = []
     if not shape.ell:
         li = 0
         for k in left:
@@ -308,7 +309,12 @@ def index_shape(shape, items):
             else:
                 d = shape.dims[li]
                 new_left.append(d if k[1] else frozenset(d - {'1'}))
+                if k[1]:
+                    left_kept.append((li - len(shape.dims), len(new_left) - 1))          # (old negative axis, position in new_left)
                 li += 1
+        total = len(new_left) + len(mid) + len(new_right)
+        for old_neg, pos_left in left_kept:
+            amap[old_neg] = pos_left - total          # x[:, None, :, :] on a rank-3 array: the fully sliced axes keep their identity
         return Shape(False, tuple(new_left + mid + new_right)), amap
     else:
         if any(k[0] != 'none' for k in left) and left:
